@@ -11,6 +11,9 @@ use std::fmt::Display;
 use std::str::FromStr;
 
 use std::sync::Arc;
+#[cfg(pricelevel_verif)]
+use crate::verif_shim::{AtomicU64, AtomicUsize, Ordering};
+#[cfg(not(pricelevel_verif))]
 use std::sync::atomic::{AtomicU64, AtomicUsize, Ordering};
 
 /// A lock-free implementation of a price level in a limit order book
@@ -666,6 +669,32 @@ impl Display for PriceLevel {
             self.hidden_quantity(),
             self.order_count(),
             orders_str.join(",")
+        )
+    }
+}
+
+#[cfg(pricelevel_verif)]
+impl PriceLevel {
+    /// Verification only: the underlying order queue.
+    pub fn verif_queue(&self) -> &OrderQueue {
+        &self.orders
+    }
+
+    /// Verification only: the three aggregates read without generating events.
+    pub fn verif_peek(&self) -> (u64, u64, usize) {
+        (
+            self.visible_quantity.peek(),
+            self.hidden_quantity.peek(),
+            self.order_count.peek(),
+        )
+    }
+
+    /// Verification only: object ids of the three aggregates (visible, hidden, count).
+    pub fn verif_oids(&self) -> (usize, usize, usize) {
+        (
+            self.visible_quantity.oid(),
+            self.hidden_quantity.oid(),
+            self.order_count.oid(),
         )
     }
 }
